@@ -26,7 +26,8 @@ THEOREMS = {
         "modules": ["Abnf.Theorems.C04"],
         "theorems": ["Abnf.C04.decodeNum_spec", "Abnf.C04.decodeRepeat_spec", "Abnf.C04.decodeNumVal_spec", "Abnf.C04.charVal_flag_spec",
                      "Abnf.C04.definedAs_layout_independent", "Abnf.C04.lf_vs_crlf", "Abnf.C04.rule_index",
-                     "Abnf.C04.create_rejects_iff_not_derivable", "Abnf.accepts_iff_derivable_on", "Abnf.Obl.Meta.meta_wf",
+                     "Abnf.C04.create_rejects_iff_not_derivable", "Abnf.C04.layout_children_ignored", "Abnf.C04.alternation_layout_independent",
+                     "Abnf.C04.concatenation_layout_independent", "Abnf.C04.group_option_layout_independent", "Abnf.accepts_iff_derivable_on", "Abnf.Obl.Meta.meta_wf",
                      "Abnf.Obl.Meta.meta_plain", "Abnf.Obl.Meta.meta_closed"],
     },
     "C06": {
@@ -45,10 +46,11 @@ THEOREMS = {
                      "Abnf.C11.flag_last_write_wins", "Abnf.C11.exclusion"],
     },
     "C12": {
-        "modules": ["Abnf.Theorems.C12", "Abnf.Obligations.Meta"],
+        "modules": ["Abnf.Theorems.C12", "Abnf.Obligations.Meta", "Abnf.Theorems.C12Load"],
         "theorems": ["Abnf.C12.closed_grammar_only_parse_error", "Abnf.C12.undefined_rule_raises", "Abnf.C12.result_independent_of_fuel",
                      "Abnf.C12.at_end_of_input", "Abnf.C12.terminates", "Abnf.C12.terminates_expr", "Abnf.closed_noGerr", "Abnf.lparse_mono",
-                     "Abnf.lparse_total", "Abnf.repLoop_noOof", "Abnf.nullable_sound", "Abnf.Obl.Meta.meta_wf"],
+                     "Abnf.lparse_total", "Abnf.repLoop_noOof", "Abnf.nullable_sound", "Abnf.Obl.Meta.meta_wf",
+                     "Abnf.C12.create_invalid_defines_nothing", "Abnf.C12.load_invalid_defines_nothing", "Abnf.C12.load_valid_reaches_visitor"],
     },
     "C13": {
         "modules": ["Abnf.Theorems.C13"],
